@@ -7,7 +7,7 @@
 (* Exact rationals; one action per layer folded into the running union,    *)
 (* then Round, then Quantize.                                              *)
 (***************************************************************************)
-EXTENDS Integers, Sequences, FiniteSets, TLC, Json, Rat
+EXTENDS Integers, Sequences, FiniteSets, TLC, Json, Rat, Quantize
 
 CONSTANTS Coords,     \* set of rationals a layer edge may take
           Steps,      \* quantisation steps to explore
@@ -23,8 +23,7 @@ vars == <<layers, q, i, acc, box, phase>>
 
 RMin(a, b) == IF RLt(a, b) THEN a ELSE b
 OtRound(x) == RFloor(RAdd(x, <<1, 2>>))
-FloorTo(n, s) == (n \div s) * s                      \* TLC's \div floors (also for negatives)
-CeilTo(n, s) == -FloorTo(-n, s)
+\* FloorTo / CeilTo: module Quantize (their outwardness for every n and every step is proved in QuantizeProof.tla)
 
 Init == /\ layers \in UNION {[1..n -> Rects] : n \in 0..MaxLayers}
         /\ q \in Steps /\ i = 1 /\ acc = NoneR /\ box = NoneR /\ phase = "union"
